@@ -3,7 +3,8 @@ From Coq Require Import List NArith String Bool Sorted.
 From V Require Import Base.Strings Base.Result Model.Registry Model.Settings Model.Subst
   Model.TypePath Model.Derives Model.Generate Model.Emit Model.Equal Model.WellFormed
   Proofs.GenProofs Proofs.SortDedup Proofs.ClosedProofs
-  Checkers.Parse Model.Unparse Proofs.ParseTy Proofs.ParseItem Proofs.ParseMod.
+  Checkers.Parse Checkers.Sem Model.Unparse Model.UnparseClosed
+  Proofs.ParseTy Proofs.ParseItem Proofs.ParseMod Proofs.ParseClosed.
 Import ListNotations.
 
 (** every emitted item is the IR of an item-eligible registry entry, sitting at that entry's path *)
@@ -132,3 +133,54 @@ Theorem C02_emit_parses :
   parse_module toks = Some (pmod_of_items s m).
 Proof. exact emit_parses. Qed.
 Print Assumptions C02_emit_parses.
+
+(** the parsed item carries a trailing semicolon exactly for unit and tuple structs
+    ([semi_struct ir]: [ti_kind ir = KStruct c] with [ci_kind c] = [CNoFields] or [CUnnamed _]) *)
+Theorem C02_syn_forms :
+  forall s ir toks,
+  type_ir_tokens s ir = Ok toks -> ir_plain s ir = true ->
+  exists it, parse_one_item toks = Some it /\ it = item_of_ir s ir /\
+             (pi_semi it = true <-> semi_struct ir).
+Proof. exact syn_forms. Qed.
+Print Assumptions C02_syn_forms.
+
+(** ** closedness of the parse of the emitted tokens.
+    [closedb] (Checkers/Sem.v) is the checker the harness runs on the parse of the OBSERVED tokens.
+    Here it is shown to hold on the tree [pmod_of_items s m] - which by [C02_emit_parses] IS the
+    parse of the emitted tokens - from IR-level conditions [ir_closed s m] (Model/UnparseClosed.v):
+    the root ident does not start with [_] (parameter names are [_<n>]) and is not the head of the
+    alloc path; keys are duplicate-free and prefix-free; every key ends in its item's name; in every
+    field, every [TPath] node whose tokens start with the root ident is [root :: p] for an emitted
+    item at [p] with as many arguments as that item declares parameters, and no compact / bits
+    wrapper path starts with the root ident; fields are tokenizable; every declared parameter is
+    unused (hence printed in the marker) or occurs in a field; parameter indices are distinct. *)
+Theorem C02_closedb_of_ir :
+  forall s m, ir_closed s m -> items_plain s m = true ->
+  closedb (s_root s) (pmod_of_items s m) = true.
+Proof. exact closedb_of_ir. Qed.
+Print Assumptions C02_closedb_of_ir.
+
+(** PARTIAL (full statement intended: under [root_fresh s], [generate r s teq = Ok m], plainness and
+    [skeleton_consistent r s]: [closedb (s_root s) (pmod_of_items s m) = true]).
+    Derived from [generate] here: duplicate-free keys ([C02_unique_names]), key = item name and
+    distinct parameter indices ([create_type_ir]), rooted paths name emitted items
+    ([C02_paths_resolve]), generics used ([C02_generics_used]).
+    Still hypotheses (the gap): [keys_prefix_free m] (DESIGN 3.1 clause 4: no item path is a proper
+    prefix of another, needed for item-vs-sibling-module names); [nodes_extra s m], i.e.
+    (a) the ARITY clause - the number of arguments at a rooted node equals the number of parameters
+        of the item found there: this is C02_arity_consistent, which follows from
+        [skeleton_consistent r s] ([C01_lookup] + equal parameter counts of [erase_ids]-equal IRs)
+        but is not proved here;
+    (b) compact / bits wrapper paths do not start with the root ident (they are [s_compact s] /
+        [s_bits s]; the invariant of [resolve_rec] is not proved here, and [root_fresh] as defined
+        in Proofs/ClosedProofs.v does not mention these two settings);
+    (c) fields are [tokenizable] (true whenever emission succeeds).
+    Also assumed: the root ident does not start with [_]. *)
+Theorem C02_closedb_emitted_partial :
+  forall r s teq m,
+  root_fresh s -> starts_with "_" (s_root s) = false ->
+  generate r s teq = Ok m -> items_plain s m = true ->
+  keys_prefix_free m -> nodes_extra s m ->
+  closedb (s_root s) (pmod_of_items s m) = true.
+Proof. exact closedb_emitted_partial. Qed.
+Print Assumptions C02_closedb_emitted_partial.
